@@ -30,6 +30,8 @@ pub struct Args {
     pub shard: (u64, u64),
     pub bfs: u64,
     pub corpus: Option<String>,
+    /// C17: every history is run five times, once per BuildHasher (case i uses stream i/5, hasher i%5)
+    pub hgroup: bool,
 }
 
 fn parse_args() -> Args {
@@ -43,6 +45,7 @@ fn parse_args() -> Args {
         shard: (0, 1),
         bfs: 0,
         corpus: None,
+        hgroup: false,
     };
     let mut i = 2;
     while i < a.len() {
@@ -54,6 +57,7 @@ fn parse_args() -> Args {
             "--out" => r.out = v,
             "--bfs" => r.bfs = v.parse().unwrap(),
             "--corpus" => r.corpus = Some(v),
+            "--hgroup" => r.hgroup = v != "0",
             "--shard" => {
                 let p: Vec<&str> = v.split('/').collect();
                 r.shard = (p[0].parse().unwrap(), p[1].parse().unwrap());
@@ -63,6 +67,15 @@ fn parse_args() -> Args {
         i += 2;
     }
     r
+}
+
+/// (is this case mine, rng stream, forced hasher) for case number `i`
+fn case_plan(a: &Args, i: u64) -> (bool, u64, Option<u64>) {
+    if a.hgroup {
+        ((i / 5) % a.shard.1 == a.shard.0, i / 5, Some(i % 5))
+    } else {
+        (i % a.shard.1 == a.shard.0, i, None)
+    }
 }
 
 fn tag(op: &[i128]) -> String {
@@ -88,13 +101,16 @@ pub fn mk_lru(cap: usize, ctor: u64, hmode: u64) -> Box<dyn Subject> {
 fn slice_lru(a: &Args, t: &mut Trace) {
     let caps: [u64; 10] = [1, 1, 2, 2, 3, 3, 4, 5, 8, 16];
     for i in 0..a.n {
-        if i % a.shard.1 != a.shard.0 {
+        let (mine, stream, hforce) = case_plan(a, i);
+        if !mine {
             continue;
         }
-        let mut r = rng_for(a.seed, i);
+        let mut r = rng_for(a.seed, stream);
         let cap = if r.chance(1, 40) { 128 } else { *r.pick(&caps) };
         let ctor = r.below(4);
+        let ctor = if a.hgroup { if ctor >= 2 { 3 } else { 1 } } else { ctor };
         let hmode = r.below(5);
+        let hmode = hforce.unwrap_or(hmode);
         let len = r.range(a.len / 4 + 1, a.len) as usize;
         let mut kg = gen::KeyGen::new(cap + 3);
         let mut vg = gen::ValGen(1000);
@@ -162,11 +178,13 @@ pub fn twoq_quotas(size: usize, rr: f64, gr: f64) -> (usize, usize) {
 
 fn slice_comp(a: &Args, t: &mut Trace, which: u32) {
     for i in 0..a.n {
-        if i % a.shard.1 != a.shard.0 {
+        let (mine, stream, hforce) = case_plan(a, i);
+        if !mine {
             continue;
         }
-        let mut r = rng_for(a.seed, i + 1_000_000 * which as u64);
+        let mut r = rng_for(a.seed, stream + 1_000_000 * which as u64);
         let hmode = r.below(5);
+        let hmode = hforce.unwrap_or(hmode);
         let len = r.range(a.len / 4 + 1, a.len) as usize;
         let mut vg = gen::ValGen(1000);
         match which {
@@ -222,10 +240,11 @@ const FPS: [f64; 5] = [0.01, 1e-9, 0.5, 0.999, 0.1];
 
 fn slice_lfu(a: &Args, t: &mut Trace, which: u32) {
     for i in 0..a.n {
-        if i % a.shard.1 != a.shard.0 {
+        let (mine, stream, hforce) = case_plan(a, i);
+        if !mine {
             continue;
         }
-        let mut r = rng_for(a.seed, i + 1_000_000 * which as u64);
+        let mut r = rng_for(a.seed, stream + 1_000_000 * which as u64);
         let len = r.range(a.len / 4 + 1, a.len) as usize;
         match which {
             4 => {
@@ -238,6 +257,7 @@ fn slice_lfu(a: &Args, t: &mut Trace, which: u32) {
                 let fpi = r.below(FPS.len() as u64) as usize;
                 let khmode = r.below(3);
                 let hmode = r.below(5);
+                let hmode = hforce.unwrap_or(hmode);
                 let mut kg = gen::KeyGen::new(w + prot + prob + 4);
                 let mut vg = gen::ValGen(1000);
                 let id = format!("wtiny-s{}-i{}", a.seed, i);
@@ -472,6 +492,36 @@ fn main() {
     // panics are expected outcomes for some slices: keep stderr quiet
     std::panic::set_hook(Box::new(|_| {}));
     let a = parse_args();
+    // watchdog: a call into the library that makes no progress for 20 s is a hang (a cyclic list, say);
+    // the current case is written to <out>.hang in replay format and the process exits with status 77.
+    // The thread neither allocates nor touches the ledger while the run is healthy.
+    {
+        let hang_path = format!("{}.hang", a.out);
+        std::thread::spawn(move || {
+            use std::sync::atomic::Ordering::Relaxed;
+            let mut last = runner::BEAT.load(Relaxed);
+            let mut idle = 0u32;
+            loop {
+                std::thread::sleep(std::time::Duration::from_secs(1));
+                if runner::DONE.load(Relaxed) {
+                    return;
+                }
+                let now = runner::BEAT.load(Relaxed);
+                if now == last {
+                    idle += 1;
+                } else {
+                    idle = 0;
+                    last = now;
+                }
+                if idle >= 20 {
+                    alloc::TRACK.store(false, Relaxed);
+                    let text = runner::CUR.try_lock().map(|c| c.clone()).unwrap_or_default();
+                    let _ = std::fs::write(&hang_path, text);
+                    std::process::exit(77);
+                }
+            }
+        });
+    }
     let mut t = Trace::create(&a.out);
     match a.slice.as_str() {
         "lru" => slice_lru(&a, &mut t),
@@ -489,6 +539,7 @@ fn main() {
             std::process::exit(2);
         }
     }
+    runner::DONE.store(true, std::sync::atomic::Ordering::Relaxed);
     let stats = format!("{}.stats", a.out);
     t.finish(&stats);
 }
